@@ -297,18 +297,19 @@ nfa, with no epsilon transition
             A dfa equivalent to the current nfa
         """
         dfa = finite_automaton.DeterministicFiniteAutomaton()
+        namer = StateNamer()
         # Add Eclose
         if eclose:
             start_eclose = self.eclose_iterable(self._start_state)
         else:
             start_eclose = self._start_state
-        start_state = to_single_state(start_eclose)
+        start_state = namer.get_merged(start_eclose)
         dfa.add_start_state(start_state)
         to_process = [start_eclose]
         processed = {start_state}
         while to_process:
             current = to_process.pop()
-            s_from = to_single_state(current)
+            s_from = namer.get_merged(current)
             for symb in self._input_symbols:
                 all_trans = [self._transition_function(x, symb)
                              for x in current]
@@ -320,7 +321,7 @@ nfa, with no epsilon transition
                 # Eclose added
                 if eclose:
                     state = self.eclose_iterable(state)
-                state_merged = to_single_state(state)
+                state_merged = namer.get_merged(state)
                 dfa.add_transition(s_from, symb, state_merged)
                 if state_merged not in processed:
                     processed.add(state_merged)
@@ -610,24 +611,25 @@ nfa, with no epsilon transition
 
         """
         enfa = EpsilonNFA()
+        namer = StateNamer()
         symbols = list(self.symbols.intersection(other.symbols))
         to_process = []
         processed = set()
         for st0 in self.eclose_iterable(self.start_states):
             for st1 in other.eclose_iterable(other.start_states):
-                enfa.add_start_state(combine_state_pair(st0, st1))
+                enfa.add_start_state(namer.get_pair(st0, st1))
                 to_process.append((st0, st1))
                 processed.add((st0, st1))
         for st0 in self.final_states:
             for st1 in other.final_states:
-                enfa.add_final_state(combine_state_pair(st0, st1))
+                enfa.add_final_state(namer.get_pair(st0, st1))
         while to_process:
             st0, st1 = to_process.pop()
-            current_state = combine_state_pair(st0, st1)
+            current_state = namer.get_pair(st0, st1)
             for symb in symbols:
                 for new_s0 in self.eclose_iterable(self(st0, symb)):
                     for new_s1 in other.eclose_iterable(other(st1, symb)):
-                        state = combine_state_pair(new_s0, new_s1)
+                        state = namer.get_pair(new_s0, new_s1)
                         enfa.add_transition(current_state, symb, state)
                         if (new_s0, new_s1) not in processed:
                             processed.add((new_s0, new_s1))
@@ -959,6 +961,38 @@ def get_regex_sub(start_to_start: str,
     elif temp != "epsilon" and temp:
         part0 = "(" + temp + ")*"
     return "(" + part0 + "." + part1 + ")"
+
+
+class StateNamer:
+    """ Gives a state to each merged set of states or pair of states, such \
+    that two different sets or pairs never get the same state.
+
+    The name is the one given by to_single_state or combine_state_pair, \
+    followed by quotes when this name is already used for something else \
+    (for example the sets {"a;b"} and {"a", "b"}).
+    """
+
+    def __init__(self):
+        self._names = {}
+        self._used = set()
+
+    def _get(self, key, state: State) -> State:
+        if key in self._names:
+            return self._names[key]
+        while state in self._used:
+            state = State(str(state.value) + "'")
+        self._names[key] = state
+        self._used.add(state)
+        return state
+
+    def get_merged(self, l_states: Iterable[State]) -> State:
+        """ The state representing a set of states """
+        return self._get(frozenset(l_states), to_single_state(l_states))
+
+    def get_pair(self, state0: State, state1: State) -> State:
+        """ The state representing a pair of states """
+        return self._get((state0, state1),
+                         combine_state_pair(state0, state1))
 
 
 def to_single_state(l_states: Iterable[State]) -> State:
